@@ -25,9 +25,9 @@ func zzC06LockCall(s *zzStore, txn *KVTxn, which int) error {
 	case 0:
 		keys = zzC06Keys[:1] // a
 	case 1:
-		keys = zzC06Keys[1:] // b,x: two regions
+		keys = zzC06Keys[:2] // a,b: one region (several requests when the batch size is small)
 	case 2:
-		keys = zzC06Keys[:2] // a,b: one region
+		keys = zzC06Keys[1:] // b,x: two regions
 	case 3:
 		keys = zzC06Keys[2:] // x
 	}
@@ -57,9 +57,20 @@ func zzC06Finish(s *zzStore, cl *zzCluster, txn *KVTxn) {
 
 // ZZ_C06_lock_calls: a sequence of LockKeys calls with scripted outcomes
 // (ok / write conflict / key exists / deadlock), then Commit or Rollback.
+// zzC06BatchSize: the keys of one region are sent in one request, or — when
+// their total size reaches the batch size limit — in several.
+func zzC06BatchSize() {
+	if zzChoice("smallbatch", 2) == 1 {
+		kv.TxnCommitBatchSize.Store(1)
+	} else {
+		kv.TxnCommitBatchSize.Store(kv.DefTxnCommitBatchSize)
+	}
+}
+
 func ZZ_C06_lock_calls() {
 	s, cl := zzNewStoreTS([][]byte{[]byte("m")}, zzParam("rerr", 1), false)
 	defer s.close()
+	zzC06BatchSize()
 	cl.lockOutcomes = true
 	cl.regionErrorsOnly = true
 	cl.noForeignResolver = true
@@ -83,6 +94,7 @@ func ZZ_C06_lock_calls() {
 func ZZ_C06_aggressive() {
 	s, cl := zzNewStoreTS([][]byte{[]byte("m")}, zzParam("rerr", 1), false)
 	defer s.close()
+	zzC06BatchSize()
 	cl.lockOutcomes = true
 	cl.regionErrorsOnly = true
 	cl.noForeignResolver = true
